@@ -226,9 +226,14 @@ def compile_case(real: Real, case, var, extra=()):
         with real.quiet():
             router = pt.Router("c09", pt.BareCallActions(no_op=pt.OnCompleteAction.create_only(pt.Approve())))
             regs = [(case, "hnd", "add")] + list(extra)
+            main_obj = None
             for cs, name, how in regs:
                 if how == "add":
-                    router.add_method_handler(pt.ABIReturnSubroutine(mk_handler(real, cs, name)))
+                    obj = pt.ABIReturnSubroutine(mk_handler(real, cs, name))
+                    main_obj = main_obj or obj
+                    router.add_method_handler(obj)
+                elif how == "alias":         # the SAME handler object registered once more under another name
+                    router.add_method_handler(main_obj, overriding_name=name)
                 elif how == "override":      # the subroutine is called `<name>_impl`, registered under `name`
                     router.add_method_handler(pt.ABIReturnSubroutine(mk_handler(real, cs, name + "_impl")), overriding_name=name)
                 elif how == "decorator":     # Router.method(name=...)
@@ -743,8 +748,8 @@ def check_contract(cx: Ctx, regs, ap, contract, built, replay_base):
     dispatched = re.findall(r'^method "(.*)"$', ap, flags=re.M)
     words = []
     for cs, nm, how in regs:
-        fn = {"add": nm, "override": nm + "_impl", "decorator": nm}[how]
-        ov = {"add": "-", "override": hexs(nm.encode()), "decorator": hexs(nm.encode())}[how]
+        fn = {"add": nm, "override": nm + "_impl", "decorator": nm, "alias": "hnd"}[how]
+        ov = {"add": "-", "override": hexs(nm.encode()), "decorator": hexs(nm.encode()), "alias": hexs(nm.encode())}[how]
         args = ".".join(hexs(param_text(p).encode()) for p in cs["params"]) or "-"
         words.append(f"{hexs(fn.encode())}:{ov}:{args}:{hexs(cs['ret'].encode())}")
     ans = cx.drv.ask("c09-contract " + ";".join(words))
@@ -772,6 +777,7 @@ def check_contract(cx: Ctx, regs, ap, contract, built, replay_base):
 
 def check_case(cx: Ctx, case, vs, r, n_calls=1, extra=()):
     real = cx.real
+    extra = [((case if how == "alias" else cs), nm, how) for cs, nm, how in extra]   # an alias re-registers the main handler
     # binding level: model = spec = the placement computed here
     mb, sb, mt, stt, beyond = ask_binding(cx.drv, case)
     cb = client_binding(case)
@@ -891,7 +897,7 @@ def gen_extra(real: Real, r):
     out = []
     for i in range(r.choice([0, 0, 1, 2, 3])):
         cs = gen_case(real, r, r.choice([0, 1, 2, 3]))
-        how = r.choice(["add", "add", "decorator", "override"])
+        how = r.choice(["add", "add", "decorator", "override", "alias"])
         out.append((cs, f"x{i}", how))
     return out
 
